@@ -14,3 +14,5 @@ EXPLANATION = LEVEL_TEXT
 NOT_DEDUCTIVE = ["TrackRecord._checkpoint/__getitem__ (ASSUMED contracts) and the pandas accessors: bounded shell only",
                  "strictly increasing record stamps on bar-shaped data (lemma stamps_increasing): argued from the clock contract; observed by the shell"]
 EXTRA_ASSUMPTIONS = ["ASSUMED contracts: TrackRecord._checkpoint, TrackRecord.__getitem__, TradingEnv._process_*_events, notify, IState.__call__"]
+
+USES_SUM_LEMMAS = True
